@@ -16,6 +16,18 @@
      msetown m k   SPIF_MAP_SET(m, k, v) with v the value the map itself stores under k (no entry: no call)
      msetownp m k  SPIF_MAP_SET(m, e, NULL) with e the map's own entry for k
      query c h     count, get, contains, find, index / map get, has_key, has_value with probe h: result ok
+     setq t q|d|e c     spif_tok_set_quote / _dquote / _escape(t, c), c = 0..255
+     settoks t h|_      spif_tok_set_tokens(t, list h): the tokenizer takes the list over
+     tlremove_at t idx  SPIF_LIST_REMOVE_AT(spif_tok_get_tokens(t), idx): the element is handed back
+     tlappend t h       SPIF_LIST_APPEND(spif_tok_get_tokens(t), h)
+     mappend h sel T    append_from_ptr(get_<member>(h), T) on a text member reached through its getter
+                        (tok: 0 src, 1 sep; objpair: 0 key, 1 value; url: 0..6 proto..query)
+     setlen h k         k < 0: set_size(get_size()), set_len(get_len()) of a str / ustr / mbuff;
+                        k >= 0: spif_mbuff_set_len(h, k) with k <= len
+     fnew C V K T pos   spif_<C>_new_from_fp / _from_fd, C = str|ustr|mbuff|tok, V = fp|fd, K = reg (regular file
+                        holding T, stream at offset pos) | pipe (holding T, write end closed) | closed (a closed
+                        descriptor) | bad (NULL FILE* / descriptor -1); result h<n> or h<n>=_ (NULL)
+   Read-back of a tokenizer: t(src,sep,tokens;quote.dquote.escape).
    Read-back of a regexp: r:<pattern>:<flag bits>:<sig>, sig = what the object MATCHES (the model has the
    value (pattern, flags); the signature is the oracle's for that value, all 0 when nothing compiles).
    Output: one token <result>/<ledger> per operation (ledger = live blocks since program start);
@@ -50,7 +62,9 @@ let rec show_obj (o : obj) : string =
   | OUstr s -> "u:" ^ show_text s
   | OMbuff s -> "m:" ^ show_text s
   | OPair (k, v) -> "p(" ^ show_opt k ^ "," ^ show_opt v ^ ")"
-  | OTok (a, b, c) -> "t(" ^ show_opt a ^ "," ^ show_opt b ^ "," ^ show_opt c ^ ")"
+  | OTok (a, b, c, ((q, dq), e)) ->
+    "t(" ^ show_opt a ^ "," ^ show_opt b ^ "," ^ show_opt c ^ ";" ^ string_of_int (int_of_z q) ^ "." ^ string_of_int (int_of_z dq)
+    ^ "." ^ string_of_int (int_of_z e) ^ ")"
   | OUrl (s, cs) -> "U(" ^ show_text s ^ ";" ^ String.concat "," (List.map show_opt cs) ^ ")"
   | ORegexp (s, f, _) -> "r:" ^ show_text s ^ ":" ^ string_of_int (int_of_z f) ^ ":" ^ re_sig s f
   | OCont (i, c, _, _, items) -> if_c i ^ cls_c c ^ "[" ^ String.concat "," (List.map show_opt items) ^ "]"
@@ -126,6 +140,18 @@ let parse_op (toks : string list) : op =
   | ["toarray"; c] -> ToArray (hnd c)
   | ["iter"; c] -> Iterator (hnd c)
   | ["query"; c; h] -> Query (hnd c, hnd h)
+  | ["setq"; t; wh; c] ->
+    TokSetChar (hnd t, nat_of_int (match wh with "q" -> 0 | "d" -> 1 | "e" -> 2 | _ -> 3), zint c)
+  | ["settoks"; t; h] -> TokSetTokens (hnd t, hopt h)
+  | ["tlremove_at"; t; i] -> TokListRemoveAt (hnd t, zint i)
+  | ["tlappend"; t; h] -> TokListAppend (hnd t, hnd h)
+  | ["mappend"; h; sel; t] -> MemberAppend (hnd h, hnd sel, zbytes_of_hex t)
+  | ["setlen"; h; k] -> SetLen (hnd h, zint k)
+  | ["fnew"; c; v; k; t; pos] ->
+    NewFromStream ((match c with "str" -> SStr | "ustr" -> SUstr | "mbuff" -> SMbuff | "tok" -> STok | _ -> failwith "fnew-class"),
+                   (match v with "fp" -> VFp | "fd" -> VFd | _ -> failwith "fnew-via"),
+                   (match k with "reg" -> KReg | "pipe" -> KPipe | "closed" -> KClosed | "bad" -> KBad | _ -> failwith "fnew-kind"),
+                   zbytes_of_hex t, zint pos)
   | _ -> failwith ("bad-op:" ^ String.concat " " toks)
 
 (* split a token list at ";" *)
